@@ -19,15 +19,20 @@ TARGETS = ["Base/Corr.vo", "C11/Model.vo", "C11/Spec.vo", "C11/Dense.vo", "C11/C
            # round 3: dense reading of the IterPart / Joint / Joint3 payloads
            "C11/DensePay.vo", "C11/Corr2.vo", "C11/ProofsDPay.vo", "C11/PropsPay.vo",
            # round 3: stale iterators in general (moves carry the observed node-validity bit)
-           "C11/ModelIt2.vo", "C11/CorrIt2.vo", "C11/ProofsIt2.vo", "C11/PropsIt2.vo"]
-PROPS = ["C11/Props.v", "C11/PropsIt.v", "C11/PropsMat.v", "C11/PropsMat2.v", "C11/PropsPay.v", "C11/PropsIt2.v"]
+           "C11/ModelIt2.vo", "C11/CorrIt2.vo", "C11/ProofsIt2.vo", "C11/PropsIt2.vo",
+           # round 5: iteration started in the middle (IteratorFrom) with pending zeros, vectors + matrices
+           "C11/ModelMatFrom.vo", "C11/DenseMatFrom.vo", "C11/CorrMat3.vo", "C11/ProofsMatFrom.vo",
+           "C11/PropsMatFrom.vo"]
+PROPS = ["C11/Props.v", "C11/PropsIt.v", "C11/PropsMat.v", "C11/PropsMat2.v", "C11/PropsPay.v", "C11/PropsIt2.v",
+         "C11/PropsMatFrom.v"]
 PROP_MODULES = [("C11.Props", "C11/Props.v"), ("C11.PropsIt", "C11/PropsIt.v"), ("C11.PropsMat", "C11/PropsMat.v"),
                 ("C11.PropsMat2", "C11/PropsMat2.v"), ("C11.PropsPay", "C11/PropsPay.v"),
-                ("C11.PropsIt2", "C11/PropsIt2.v")]
+                ("C11.PropsIt2", "C11/PropsIt2.v"), ("C11.PropsMatFrom", "C11/PropsMatFrom.v")]
 PARTIAL = ("Theorems are about the hand-written models coq/C11/Model.v (vector_sparse_template.in: heap of cells + "
            "value map + ordered key set standing for the AVL index, justified by C19), ModelIt.v / ModelIt2.v (held "
-           "iterators) and ModelMat.v (sparse matrices, whole matrices only). Element carrier Z. The dense refinement "
-           "(vectors: all 25 operations; matrices: all 22 operations, world level, whole histories) is stated for "
+           "iterators), ModelMat.v (sparse matrices, whole matrices only) and ModelMatFrom.v (matrix IteratorFrom). Element "
+           "carrier Z. The dense refinement (vectors: all 25 operations incl. ConstIteratorFrom; matrices: all 22 "
+           "operations + ConstIteratorFrom(i,j) full / abandoned, world level, whole histories) is stated for "
            "histories in which in-place writes go to containers holding no scalar shared with another one (Dense.safe / "
            "DenseMat.msafe; shared-cell writes = known finding C11-SLICEWT, T() sharing = C10 F-SPT-REF). Iterators held "
            "across an index-replacing operation (ReverseOrder/Sort/Permute, known finding C11-STALEIT) are characterised "
@@ -197,7 +202,7 @@ def run(ctx):
     broken = [f["target"] for f in failures] + (["correspondence C11.Corr.check"] if bad else []) + \
              (["correspondence C11.CorrIt (held iterators)"] if bad_held else []) + \
              (["correspondence C11.CorrIt2 (stale iterators)"] if bad_held2 else []) + \
-             (["correspondence C11.CorrMat (sparse matrices)"] if bad_mat else [])
+             (["correspondence C11.CorrMat3 (sparse matrices incl. IteratorFrom)"] if bad_mat else [])
     if h0:
         ctx.violation({"case": h0["case"], "failure": h0["failure"], "at": h0["at"], "broken": broken}, True,
                       "sparse vector violates coherence / dense agreement / iteration: " + h0["failure"])
@@ -224,7 +229,7 @@ def run(ctx):
                       "violating the property itself was found" % len(bad))
     if bad_mat:
         ctx.violation({"case": bad_mat[0], "part": "mat",
-                       "obligation": "correspondence C11.CorrMat (sparse-matrix model vs implementation)"},
+                       "obligation": "correspondence C11.CorrMat3 (sparse-matrix model incl. IteratorFrom vs implementation)"},
                       False, "sparse-matrix model and implementation disagree on a history (%d of them), but no "
                       "history violating the property itself was found" % len(bad_mat))
     if bad_held2:
